@@ -269,6 +269,10 @@ func (s Schema) MarshalJSON() ([]byte, error) {
 			dep[k] = v
 		}
 		for k, v := range s.DependencyStrings {
+			if v == nil {
+				// Written as null, a nil list would be read back as a schema.
+				v = []string{}
+			}
 			dep[k] = v
 		}
 	}
